@@ -13,13 +13,13 @@ from vmon.util import mk_rng, guarded, Raised, num_grad
 
 ID = "C05"
 RULE = (
-    "seeded (class, data, uncertainties, forward model, theta): 1-200 data, per-datum sigma 1e-6..1e6, "
+    "seeded (class, data, uncertainties, forward model, theta): 1-200 data, per-datum sigma 1e-6..1e6 (one case in 20: data, predictions and sigma in units of 1e-250..1e-120 or 1e120..1e250), "
     "linear/polynomial/exponential models with exact Jacobians, residuals up to 1e3 sigma of both signs, "
     "arrays/lists/scalars; non-trivial = at least one non-zero residual; distinct = distinct (class, y, sigma, prediction)"
 )
 ASSUMPTIONS = ["scipy.stats.norm/cauchy/logistic.logpdf and scipy.integrate.quad are trusted references"]
 TIMEOUT = {"quick": 300, "thorough": 1500}
-REQUIRED = {"post:__call__": 300, "post:gradient": 300, "normalisation_integrals": 20, "cases:far_tail": 30, "in_place_theta_updates": 100}
+REQUIRED = {"post:__call__": 300, "post:gradient": 300, "normalisation_integrals": 20, "cases:far_tail": 30, "in_place_theta_updates": 100, "cases:extreme_units": 30}
 
 SQ3_PI = np.sqrt(3.0) / np.pi
 
@@ -48,7 +48,7 @@ def ref_terms(name, y, pred, s):
 def ref_dterm_dpred(name, y, pred, s):
     """d/d(pred) of the reference log-density, from the textbook formulas."""
     if name == "Gaussian":
-        return (y - pred) / s**2
+        return ((y - pred) / s) / s
     if name == "Cauchy":
         z = (y - pred) / s
         return 2 * z / (s * (1 + z**2))
@@ -57,6 +57,8 @@ def ref_dterm_dpred(name, y, pred, s):
 
 
 class Model:
+    unit = 1.0    # the unit in which the data (and so the predictions) are expressed
+
     def __init__(self, rng, n):
         self.kind = str(rng.choice(["linear", "poly", "exp"]))
         self.x = np.sort(rng.uniform(-1, 1, size=n))
@@ -75,19 +77,19 @@ class Model:
     def __call__(self, t):
         t = np.asarray(t, dtype=float)
         if self.kind == "linear":
-            return self.A @ t + self.c
+            return (self.A @ t + self.c) * self.unit
         if self.kind == "poly":
-            return sum(t[k] * self.x**k for k in range(self.m))
-        return t[0] * np.exp(-t[1] * self.x) + t[2]
+            return sum(t[k] * self.x**k for k in range(self.m)) * self.unit
+        return (t[0] * np.exp(-t[1] * self.x) + t[2]) * self.unit
 
     def jac(self, t):
         t = np.asarray(t, dtype=float)
         if self.kind == "linear":
-            return self.A.copy()
+            return self.A * self.unit
         if self.kind == "poly":
-            return np.stack([self.x**k for k in range(self.m)], axis=1)
+            return np.stack([self.x**k for k in range(self.m)], axis=1) * self.unit
         e = np.exp(-t[1] * self.x)
-        return np.stack([e, -t[0] * self.x * e, np.ones_like(self.x)], axis=1)
+        return np.stack([e, -t[0] * self.x * e, np.ones_like(self.x)], axis=1) * self.unit
 
 
 def run_job(job, rec):
@@ -110,8 +112,15 @@ def run_job(job, rec):
         n = int(rng.choice([1, 1, 2, 3, 5, 10, 50, 200]))
         model = Model(rng, n)
         theta = model.theta + rng.normal(size=model.m) * 0.1
-        pred_true = model(model.theta)
         base = 10.0 ** rng.uniform(-6, 6)
+        extreme = bool(rng.random() < 0.05)
+        if extreme:
+            # data, predictions and uncertainties all expressed in a very small or very large unit (1e-250 .. 1e-120, 1e120 .. 1e250):
+            # every standardised residual, and the gradient, are of ordinary size
+            model.unit = 10.0 ** (rng.choice([-1, 1]) * rng.uniform(120, 250))
+            base = model.unit * 10.0 ** rng.uniform(-2, 2)
+            rec.count("cases:extreme_units")
+        pred_true = model(model.theta)
         s = base * 10.0 ** rng.uniform(-1, 1, size=n)
         spread = str(rng.choice(["wide", "wide", "equal", "nearly_equal"]))
         if spread == "equal":
@@ -131,6 +140,8 @@ def run_job(job, rec):
         rec.context = {"case": c, "class": name, "n": n, "model": model.kind, "regime": regime, "sigma_base": base}
 
         form = str(rng.choice(["array", "list", "scalar", "int"])) if n == 1 else str(rng.choice(["array", "list", "row2d", "nested", "column2d", "int", "intlist", "f32"]))
+        if extreme:
+            form = str(rng.choice(["array", "list"]))
         if form in ("int", "intlist"):
             # integer-typed data and uncertainties (counts): legal input, must be treated as the same numbers
             y = np.rint(np.clip(y, -1e15, 1e15))
